@@ -18,25 +18,34 @@ from fractions import Fraction as F
 
 import fw
 
-LEAN_PROPS = ["NmlVerif.Props.C05"]
+LEAN_PROPS = ["NmlVerif.Props.C05", "NmlVerif.Props.C05b", "NmlVerif.Props.C05Gen", "NmlVerif.Props.C05C01"]
 LEVEL = "proof"
 RULE = ("random documents: 0-2 networks, 1-4 populations (sized / instance based, properties), 0-3 projections of "
         "each of the three kinds with all eight connection classes (mixed lists, ids unrelated to the row index, "
         "segments / fractions / weights / delays from a pool of dyadic and non-dyadic doubles, both cell path "
         "forms), 0-2 input lists (input / inputW mixed), random top-level components; a separate stream adds one "
         "construct the format cannot hold or a known weak spot; a case is non-trivial when some table has >= 2 rows "
-        "and the write succeeds; distinct = distinct canonical specifications")
+        "and the write succeeds; distinct = distinct canonical specifications; every written file is also loaded with "
+        "optimized=True; model-built files are re-read with permuted / dropped / unnamed columns and legacy 4-column "
+        "location tables; stream `fate` sets every member nml.py declares for the 31 classes of the network subtree; "
+        "stream `f32` compares the model's float32 rounding with numpy on doubles of every magnitude")
 TRUST = [
     "hand-written model of writers.NeuroMLHdf5Writer.write, the six exportHdf5 methods, hdf5/NeuroMLHdf5Parser.py, "
-    "hdf5/NetworkBuilder.py, loaders.NeuroMLHdf5Loader, utils.add_all_to_document; tied by the enc/dec streams only",
+    "hdf5/NetworkBuilder.py, hdf5/NetworkContainer.py (optimized lists), loaders.NeuroMLHdf5Loader, "
+    "utils.add_all_to_document; the table layout (column headers, cells per row loop, initialisers, group prefixes, "
+    "attribute names, reader column table with defaults / conversions / handler parameter, member lists) is "
+    "regenerated from the source on every run (translators/hdf5_layout_extract.py, validated not verified) and "
+    "proved equal to the hand model (Props/C05Gen.lean); control flow around it is tied by the streams only",
     "PyTables/HDF5 storage and node iteration order (model keeps creation order, results compared per id); numpy "
-    "float32 conversion = round-to-nearest-even (driver function f32, sampled against numpy on every table cell)",
+    "float32 conversion = round-to-nearest-even on 24 bits (Model `f32`, compared with numpy.float32 on ~300 / ~3000 "
+    "doubles per run incl. ties, subnormals, integers around 2^24; idempotence sampled, only ever a hypothesis)",
     "string splitting of cell paths and delays is done by the harness (own regex) and checked against the library's "
-    "accessors through the enc stream; the XML of non-network components is an opaque payload (C01's topic)",
+    "accessors through the enc stream; the XML of non-network components is an opaque payload in Model/Hdf5.lean; "
+    "Props/C05C01.lean composes the round trip with C01's tree-level theorem (component objects identical)",
 ]
 ASSUMPTIONS = [
-    "theorems are stated for `Supported` documents: at most one network, distinct group names that trigger exactly one "
-    "of the parser's name tests, referenced populations exist, integers exactly representable in float32 (< 2^24), "
+    "theorems are stated for `Supported0` documents: at most one network, distinct group names (ANY ids: the repaired "
+    "parser tests names with startswith), referenced populations exist, integers exactly representable in float32 (< 2^24), "
     "instance ids equal to the row index, one synapse / component pair per electrical / continuous projection, "
     "pre/post components defined in the document, no weight != 1 in an electrical projection between two sized "
     "populations, Input.fraction_along != 0.0 while C19's accessor defect is open",
@@ -44,6 +53,21 @@ ASSUMPTIONS = [
 ]
 
 I24 = 1 << 24
+
+
+def regenerate(ctx):
+    """translator step: the table layout (writer columns / cells / attributes / prefixes, reader column table, member
+    lists) is read from fw.REPO's working tree into lean/NmlVerif/Gen/Hdf5Layout.lean; Props/C05Gen.lean proves
+    generated = hand model on every run"""
+    import sys
+    tdir = os.path.join(fw.VERIF, "translators")
+    if tdir not in sys.path:
+        sys.path.insert(0, tdir)
+    import hdf5_layout_extract
+    gaps = hdf5_layout_extract.regenerate(fw.REPO, os.path.join(fw.LEAN, "NmlVerif", "Gen", "Hdf5Layout.lean"))
+    ctx.extra["translator"] = {"file": "lean/NmlVerif/Gen/Hdf5Layout.lean", "gaps": gaps,
+                               "extracted": getattr(hdf5_layout_extract.regenerate, "info", {})}
+    return gaps
 
 
 # ------------------------------------------------------------------------------------------------ numbers
@@ -70,11 +94,16 @@ def unj(p):
     return F(p[0], p[1])
 
 
-VALS = [F(1, 2), F(1, 2), F(0), F(1), F(1, 4), F(3, 4), F(0.1), F(0.3), F(1, 8), F(2.5), F(0.999), F(7, 16)]
-WEIGHTS = [F(1), F(1), F(1, 2), F(0), F(2), F(0.1), F(-1.5), F(1.0000000001), F(3)]
-DELAYS_MS = [F(0), F(1), F(2.5), F(0.1), F(5), F(1, 4)]
-DELAYS_S = [F(0), F(1, 2), F(1, 4), F(1), F(1, 8)]
-COORDS = [F(0), F(1.5), F(-3), F(0.1), F(100.25), F(1e-3), F(12345.678)]
+# values that need the whole float32 mantissa (7-9 significant digits) next to the round ones: a conversion that keeps
+# only 6 digits ("%g") or goes through a shorter float must show
+VALS = [F(1, 2), F(1, 2), F(0), F(1), F(1, 4), F(3, 4), F(0.1), F(0.3), F(1, 8), F(2.5), F(0.999), F(7, 16),
+        F(0.123456789), F(0.87654321)]
+WEIGHTS = [F(1), F(1), F(1, 2), F(0), F(2), F(0.1), F(-1.5), F(1.0000000001), F(3), F(0.123456789), F(1234.5678),
+           F(16777215, 1 << 20)]
+DELAYS_MS = [F(0), F(1), F(2.5), F(0.1), F(5), F(1, 4), F(12.345678), F(10000.25), F(3.1415926), F(16777215, 1 << 16)]
+# seconds: dyadic, so that the writer's float64 `v * 1000.0` is exact (3217/2^20 s = 3.06797027587890625 ms)
+DELAYS_S = [F(0), F(1, 2), F(1, 4), F(1), F(1, 8), F(3217, 1 << 20), F(12345677, 1 << 30)]
+COORDS = [F(0), F(1.5), F(-3), F(0.1), F(100.25), F(1e-3), F(12345.678), F(-0.123456789), F(16777215, 1 << 8)]
 
 
 # ------------------------------------------------------------------------------------------------ spec -> real objects
@@ -479,6 +508,20 @@ def gen_doc(rng, big=False):
     return mk_doc(rng.choice(["doc1", "D_2"]), nets, top, notes=rng.choice([None, "Some notes\nsecond line", "x"]))
 
 
+def gen_optdoc(rng, big=False):
+    """a document the optimized loader has containers for: chemical projections and input lists only, inputs numbered
+    by their row (it refuses everything else)"""
+    spec = gen_doc(rng, big=big)
+    for ns in spec["nets"]:
+        ns["eprojs"], ns["cprojs"] = [], []
+        if rng.random() < 0.8:
+            for l in ns["ilists"]:
+                for k, i in enumerate(l["inputs"] + l["inputWs"]):
+                    i["id"] = k
+    spec["special"] = "optdoc"
+    return spec
+
+
 def first_table(spec, want):
     """(net, kind, obj) of the first projection / input list of the wanted kind, or None"""
     for ns in spec["nets"]:
@@ -606,7 +649,8 @@ def close_all():
 
 def exc_name(e):
     n = type(e).__name__
-    return n if n in ("IndexError", "ValueError", "NodeError", "TypeError", "KeyError", "AttributeError", "Exception") \
+    return n if n in ("IndexError", "ValueError", "NodeError", "TypeError", "KeyError", "AttributeError", "Exception",
+                      "AssertionError") \
         else "Other:" + n
 
 
@@ -701,10 +745,12 @@ def reset_builder():
             d.clear()
 
 
-def load_real(path):
+def load_real(path, optimized=False):
     import neuroml.loaders as L
     reset_builder()
     try:
+        if optimized:
+            return L.NeuroMLHdf5Loader.load(path, optimized=True), None
         return L.NeuroMLHdf5Loader.load(path), None
     except Exception as e:  # noqa
         return None, exc_name(e)
@@ -940,8 +986,25 @@ def py_has(name, sub):
     return name.count(sub) >= 1
 
 
+_COUNT_TESTS = None
+
+
+def parser_uses_count():
+    """does the parser of the tree under test still classify groups with `name.count(..)` (before the C05 repair)?"""
+    global _COUNT_TESTS
+    if _COUNT_TESTS is None:
+        try:
+            src = open(os.path.join(fw.REPO, "neuroml", "hdf5", "NeuroMLHdf5Parser.py")).read()
+            _COUNT_TESTS = '_v_name.count("' in src
+        except OSError:
+            _COUNT_TESTS = False
+    return _COUNT_TESTS
+
+
 def ambiguous_names(spec):
     out = []
+    if not parser_uses_count():
+        return out
     for ns in spec["nets"]:
         names = ["population_" + p["id"] for p in ns["pops"]] + \
                 ["projection_" + p["id"] for p in ns["projs"] + ns["eprojs"] + ns["cprojs"]] + \
@@ -981,6 +1044,23 @@ def must_refuse(spec):
         for p in ns["pops"]:
             if p["size"] is None and not p["insts"]:
                 r.append("population-without-size")
+    return r
+
+
+def may_refuse(spec):
+    """documents the library is allowed (not obliged) to refuse: the format as it is cannot hold them"""
+    r = []
+    for ns in spec["nets"]:
+        pops = {q["id"]: q for q in ns["pops"]}
+        for sec in ("eprojs", "cprojs"):
+            for p in ns[sec]:
+                allc = p["plain"] + p["insts"] + p["instWs"]
+                if len({(c["syn"], c["preComp"]) for c in allc}) > 1:
+                    r.append("mixed-synapse-in-projection")
+                if p["pre"] in pops and p["post"] in pops and not pop_is_inst(pops[p["pre"]]) \
+                        and not pop_is_inst(pops[p["post"]]) and \
+                        any(c["weight"] is not None and f32(unj(c["weight"])) != 1 for c in p["instWs"]):
+                    r.append("weight-between-sized-populations")
     return r
 
 
@@ -1024,21 +1104,21 @@ def check_extras(spec, doc2):
         ex = ns.get("extras", {})
         for k in ("spaces", "regions", "cell_sets"):
             if ex.get(k) and len(getattr(net, k)) == 0:
-                out.append("C05:silently-dropped:network." + k)
+                out.append("C05:silently-dropped:Network." + k)
         pops = {p.id: p for p in net.populations}
         for ps in ns["pops"]:
             p = pops.get(ps["id"])
             if p is None:
                 continue
             if ps.get("xnotes") and p.notes != ps["xnotes"]:
-                out.append("C05:silently-dropped:population.notes")
+                out.append("C05:silently-dropped:Population.notes")
             if ps.get("ijk") and any(i.i is None for i in p.instances):
-                out.append("C05:silently-dropped:instance.ijk")
+                out.append("C05:silently-dropped:Instance.i")
         ils = {l.id: l for l in net.input_lists}
         for ls in ns["ilists"]:
             l = ils.get(ls["id"])
             if l is not None and "dest" in ls and any(i.destination != ls["dest"] for i in list(l.input) + list(l.input_ws)):
-                out.append("C05:silently-dropped:input.destination")
+                out.append("C05:silently-dropped:Input.destination")
     return out
 
 
@@ -1096,6 +1176,9 @@ def oracle(ctx, spec, before, werr, doc2, lerr, after):
     amb = ambiguous_names(spec)
     exp = py_expect(py_sem(before))
     if refused:
+        if may_refuse(spec):
+            ctx.count("oracle:allowed-refusal")
+            return
         if amb:
             ctx.fail("C05:group-name-substring", "group name %s triggers several of the parser's name tests: %s"
                      % (amb[0], refused), case)
@@ -1135,6 +1218,283 @@ def oracle(ctx, spec, before, werr, doc2, lerr, after):
         ctx.fail(k, what, case)
 
 
+def oracle_opt(ctx, spec, before, oerr, after):
+    """the full property for NeuroMLHdf5Loader.load(optimized=True) (the write succeeded)"""
+    if must_refuse(spec):
+        return
+    case = {"spec": spec, "optimized": True}
+    ns = spec["nets"][0] if spec["nets"] else None
+    if oerr:
+        if ns is None:
+            key = "C05:optimized:refused:no-network"
+        elif ns["eprojs"] or ns["cprojs"]:
+            key = "C05:optimized:refused:electrical-or-continuous-projection"
+        elif oerr == "AssertionError":
+            key = "C05:optimized:refused:input-ids-not-row-index"
+        else:
+            key = "C05:optimized:refused:" + oerr
+        ctx.fail(key, "the optimized loader refused a document within the supported constructs (%s)" % oerr, case)
+        return
+    diffs = sem_diffs(py_expect(py_sem(before)), py_expect(py_sem(after)))
+    keys = {}
+    for (sec, owner, field, va, vb) in diffs:
+        k = None
+        if sec == "projs":
+            p = [q for q in ns["projs"] if q["id"] == owner]
+            if p and any(f32(unj(c["weight"])) != 1 or delay_ms(c["delay"]) != 0 for c in p[0]["connWDs"]):
+                k = "C05:optimized:weight-delay-dropped"
+        if sec == "ils":
+            l = [q for q in ns["ilists"] if q["id"] == owner]
+            if l and any(i["weight"] is not None and f32(unj(i["weight"])) != 1 for i in l[0]["inputWs"]):
+                k = "C05:optimized:input-weight-dropped"
+            elif field == "frac" and va == 0 and vb == F(1, 2):
+                k = "C05:input-fraction-zero"
+        if sec == "pops" and field == "instIds":
+            k = "C05:instance-ids-renumbered"
+        if k is None:
+            k = "C05:optimized:mismatch:%s.%s" % (sec, field)
+        keys.setdefault(k, "optimized loader: %s %s field %s: expected %r, loaded %r" % (sec, owner, field, show(va), show(vb)))
+    if sorted(before["top"]) != sorted(after["top"]):
+        keys.setdefault("C05:optimized:top-level-components-differ", "non-network components differ")
+    for k, what in sorted(keys.items()):
+        ctx.fail(k, what, case)
+
+
+# ------------------------------------------------------------------------------------------------ member kinds (stream `fate`)
+def fate_base():
+    """a document in which every member the layout stores has a non-default value"""
+    import neuroml as n
+    doc = n.NeuroMLDocument(id="fdoc", notes="doc notes")
+    for kind, cid in STD_TOP:
+        getattr(doc, TOP_LIST[kind]).append(TOP_KINDS[kind](n, cid))
+    net = n.Network(id="fnet", notes="net notes", temperature="32degC", type="networkWithTemperature")
+    doc.networks.append(net)
+    zp = n.Population(id="zp", component="iz", size=4)
+    zp.properties.append(n.Property(tag="color", value="1 0 0"))
+    ap = n.Population(id="ap", component="iaf", type="populationList", size=3)
+    for k in range(3):
+        inst = n.Instance(id=k)
+        inst.location = n.Location(x=1.5 + k, y=0.25, z=-3.0)
+        ap.instances.append(inst)
+    net.populations += [zp, ap]
+    pr = n.Projection(id="pr", presynaptic_population="zp", postsynaptic_population="ap", synapse="syn1")
+    pr.connections.append(n.Connection(id=0, pre_cell_id="../zp[1]", post_cell_id="../ap/2/iaf", pre_segment_id=2,
+                                       post_segment_id=3, pre_fraction_along=0.25, post_fraction_along=0.75))
+    prw = n.Projection(id="prw", presynaptic_population="zp", postsynaptic_population="ap", synapse="syn2")
+    net.projections.append(prw)
+    prw.connection_wds.append(n.ConnectionWD(id=0, pre_cell_id="../zp[3]", post_cell_id="../ap/1/iaf", pre_segment_id=1,
+                                            post_segment_id=4, pre_fraction_along=0.125, post_fraction_along=0.875,
+                                            weight=0.5, delay="2.5ms"))
+    net.projections.append(pr)
+    ep = n.ElectricalProjection(id="ep", presynaptic_population="zp", postsynaptic_population="zp")
+    ep.electrical_connections.append(n.ElectricalConnection(id=4, pre_cell="1", post_cell="2", pre_segment=2, post_segment=3,
+                                                            pre_fraction_along=0.25, post_fraction_along=0.75, synapse="gj"))
+    ep2 = n.ElectricalProjection(id="ep2", presynaptic_population="zp", postsynaptic_population="ap")
+    kw = dict(pre_cell="../zp[1]", post_cell="../ap/2/iaf", pre_segment=2, post_segment=3, pre_fraction_along=0.25,
+              post_fraction_along=0.75)
+    ep2.electrical_connection_instances.append(n.ElectricalConnectionInstance(id=6, synapse="gj2", **kw))
+    ep2.electrical_connection_instance_ws.append(n.ElectricalConnectionInstanceW(id=9, synapse="gj2", weight=0.5, **kw))
+    cp = n.ContinuousProjection(id="cp", presynaptic_population="zp", postsynaptic_population="zp")
+    cp.continuous_connections.append(n.ContinuousConnection(id=4, pre_cell="1", post_cell="2", pre_segment=2, post_segment=3,
+                                                            pre_fraction_along=0.25, post_fraction_along=0.75,
+                                                            pre_component="silent1", post_component="gs1"))
+    cp2 = n.ContinuousProjection(id="cp2", presynaptic_population="zp", postsynaptic_population="ap")
+    ckw = dict(kw, pre_component="gs2", post_component="gs1")
+    cp2.continuous_connection_instances.append(n.ContinuousConnectionInstance(id=6, **ckw))
+    cp2.continuous_connection_instance_ws.append(n.ContinuousConnectionInstanceW(id=9, weight=0.5, **ckw))
+    net.electrical_projections += [ep, ep2]
+    net.continuous_projections += [cp, cp2]
+    il = n.InputList(id="il", component="pg", populations="ap")
+    il.input.append(n.Input(id=3, target="../ap/1/iaf", destination="synapses", segment_id=2, fraction_along=0.25))
+    il.input_ws.append(n.InputW(id=5, target="../ap/2/iaf", destination="synapses", segment_id=4, fraction_along=0.75,
+                                weight=0.5))
+    net.input_lists.append(il)
+    return doc
+
+
+def fate_obj(doc, cls, member=""):
+    net = doc.networks[0]
+
+    def by(lst, i):
+        return [x for x in lst if x.id == i][0]
+    zp, ap = by(net.populations, "zp"), by(net.populations, "ap")
+    if cls == "NeuroMLDocument":
+        return doc
+    if cls == "Network":
+        return net
+    if cls == "Population":
+        return ap
+    if cls == "Property":
+        return zp.properties[0]
+    if cls == "Instance":
+        return ap.instances[1]
+    if cls == "Location":
+        return ap.instances[1].location
+    if cls == "Projection":
+        return by(net.projections, "prw" if member == "connection_wds" else "pr")
+    if cls == "Connection":
+        return by(net.projections, "pr").connections[0]
+    if cls == "ConnectionWD":
+        return by(net.projections, "prw").connection_wds[0]
+    if cls == "ElectricalProjection":
+        return by(net.electrical_projections, "ep" if member == "electrical_connections" else "ep2")
+    if cls == "ElectricalConnection":
+        return by(net.electrical_projections, "ep").electrical_connections[0]
+    if cls == "ElectricalConnectionInstance":
+        return by(net.electrical_projections, "ep2").electrical_connection_instances[0]
+    if cls == "ElectricalConnectionInstanceW":
+        return by(net.electrical_projections, "ep2").electrical_connection_instance_ws[0]
+    if cls == "ContinuousProjection":
+        return by(net.continuous_projections, "cp" if member == "continuous_connections" else "cp2")
+    if cls == "ContinuousConnection":
+        return by(net.continuous_projections, "cp").continuous_connections[0]
+    if cls == "ContinuousConnectionInstance":
+        return by(net.continuous_projections, "cp2").continuous_connection_instances[0]
+    if cls == "ContinuousConnectionInstanceW":
+        return by(net.continuous_projections, "cp2").continuous_connection_instance_ws[0]
+    if cls == "InputList":
+        return net.input_lists[0]
+    if cls == "Input":
+        return net.input_lists[0].input[0]
+    if cls == "InputW":
+        return net.input_lists[0].input_ws[0]
+    raise KeyError(cls)
+
+
+def fate_plant(obj, cls, member):
+    """give an unset member a value"""
+    import neuroml as n
+    cur = getattr(obj, member)
+    if isinstance(cur, list):
+        child = {"spaces": lambda: n.Space(id="sp1"), "regions": lambda: n.Region(id="reg1", spaces="sp1"),
+                 "extracellular_properties": lambda: n.ExtracellularPropertiesLocal(),
+                 "cell_sets": lambda: n.CellSet(id="cs1", select="x"),
+                 "properties": lambda: n.Property(tag="ptag", value="pval"),
+                 "synaptic_connections": lambda: n.SynapticConnection(from_="zp[0]", to="zp[1]", synapse="syn1"),
+                 "explicit_inputs": lambda: n.ExplicitInput(target="zp[0]", input="pg")}[member]()
+        cur.append(child)
+        return
+    val = {"metaid": "meta_1", "annotation": None, "neuro_lex_id": "NLXCELL:1", "notes": "member notes",
+           "extracellular_properties": "extra1", "layout": None, "i": 1, "j": 2, "k": 3,
+           "destination": "someOtherPort"}[member]
+    if member == "annotation":
+        val = n.Annotation()
+    if member == "layout":
+        val = n.Layout(spaces="sp1")
+    setattr(obj, member, val)
+
+
+def fate_same(a, b):
+    if isinstance(a, list):
+        return isinstance(b, list) and len(a) == len(b) and len(a) > 0
+    if a is None or b is None:
+        return a is None and b is None
+    if hasattr(a, "member_data_items_"):
+        return type(a) is type(b)
+    try:
+        if isinstance(a, str) and re.fullmatch(r"[-0-9.eE]+(ms|s)", a):
+            return delay_ms(parse_delay(a)) == delay_ms(parse_delay(b))
+        return f32(rat(a)) == f32(rat(b))
+    except Exception:
+        return str(a) == str(b)
+
+
+def run_fate(ctx):
+    """every member `nml.py` declares for a class of the network subtree: what the real writer + loader do with it
+    (kept / lost / refused) against the model's classification (`memberFateAll`); a member that is lost without an
+    exception is a violation of the statement's last clause"""
+    rc, out = fw.run_driver("C05", [json.dumps({"op": "fate", "cfg": {}})])
+    if rc != 0 or len(out) != 1:
+        ctx.disagree("driver", "fate", "\n".join(out[-3:]), None)
+        return
+    table = json.loads(out[0])["ok"]
+    root = tempfile.mkdtemp(prefix="verif_c05f_")
+    try:
+        for k, (cls, member, fate) in enumerate(table):
+            doc = fate_base()
+            obj = fate_obj(doc, cls, member)
+            cur = getattr(obj, member)
+            planted = False
+            if cur is None or (isinstance(cur, list) and not cur) or fate in ("dropped", "refused"):
+                fate_plant(obj, cls, member)
+                planted = True
+            want = getattr(obj, member)
+            want = list(want) if isinstance(want, list) else want
+            path = os.path.join(root, "f%d.nml.h5" % k)
+            import neuroml.writers as w
+            err = None
+            try:
+                w.NeuroMLHdf5Writer.write(doc, path)
+            except Exception as e:  # noqa
+                err = exc_name(e)
+            finally:
+                close_all()
+            got = None
+            if err is None:
+                doc2, err = load_real(path)
+                if doc2 is not None:
+                    try:
+                        got = getattr(fate_obj(doc2, cls, member), member)
+                    except Exception as e:  # noqa
+                        err = "gone:" + type(e).__name__
+            seen = "refused" if err and not str(err).startswith("gone:") else \
+                ("kept" if err is None and fate_same(want, got) else "lost")
+            ctx.corr_evals += 1
+            ctx.count("fate:%s:%s" % (fate, seen))
+            ctx.seen(["fate", cls, member], nontrivial=True)
+            expect = {"stored": "kept", "derived": "kept", "refused": "refused", "dropped": "lost"}[fate]
+            case = {"fate": [cls, member], "planted": planted}
+            if seen != expect:
+                ctx.disagree("fate", case, seen, fate)
+            if seen == "lost":
+                ctx.fail("C05:silently-dropped:%s.%s" % (cls, member),
+                         "member %s.%s is written and loaded without an exception and its value is gone" % (cls, member), case)
+            try:
+                os.remove(path)
+            except OSError:
+                pass
+    finally:
+        close_all()
+        shutil.rmtree(root, ignore_errors=True)
+
+
+# ------------------------------------------------------------------------------------------------ float32 (stream `f32`)
+def run_f32(ctx):
+    """the model's round-to-nearest-even on 24 bits against numpy.float32, and its idempotence, on doubles of every
+    magnitude (ties, subnormals, integers around 2^24 included)"""
+    import struct
+    rng = ctx.rng
+    xs = [F(0), F(1), F(1, 2), F(16777217), F(16777219), F(-16777217), F(1, 1 << 150), F(3, 1 << 150), F(1, 1 << 149),
+          F(0.1), F(0.3), F(1.0000000001), F(12345.678), F((1 << 24) + 1, 1 << 24), F((1 << 25) + 1, 1 << 25),
+          F((1 << 25) + 3, 1 << 25)]
+    for _ in range(ctx.n(300, 3000)):
+        style = rng.random()
+        if style < 0.4:
+            xs.append(F(rng.uniform(-1e4, 1e4)))
+        elif style < 0.6:
+            xs.append(F(struct.unpack("<d", struct.pack("<Q", rng.getrandbits(64) & 0x47EFFFFFFFFFFFFF | (rng.getrandbits(1) << 63)))[0]))
+        elif style < 0.8:
+            m = rng.getrandbits(25) | 1          # 25 significant bits: exactly between two float32 values
+            xs.append(F(m, 1 << rng.randrange(0, 60)) * rng.choice([1, -1]))
+        else:
+            xs.append(F(rng.randrange(-(1 << 26), 1 << 26)))
+    xs = [x for x in xs if abs(x) < F(2) ** 127]
+    rc, out = fw.run_driver("C05", [json.dumps({"op": "f32", "cfg": {}, "xs": [jr(x) for x in xs]})])
+    if rc != 0 or len(out) != 1:
+        ctx.disagree("driver", "f32", "\n".join(out[-3:]), None)
+        return
+    ys = [unj(p) for p in json.loads(out[0])["ok"]]
+    rc, out2 = fw.run_driver("C05", [json.dumps({"op": "f32", "cfg": {}, "xs": [jr(y) for y in ys]})])
+    zs = [unj(p) for p in json.loads(out2[0])["ok"]]
+    for x, y, z in zip(xs, ys, zs):
+        ctx.corr_evals += 1
+        ctx.count("f32:values")
+        if f32(x) != y:
+            ctx.disagree("f32", {"x": str(x)}, str(f32(x)), str(y))
+        if z != y:
+            ctx.disagree("f32-idempotence", {"x": str(x)}, str(y), str(z))
+
+
 # ------------------------------------------------------------------------------------------------ correspondence
 def frac_truthy():
     """does Input.get_fraction_along still take 0.0 for "not set" (C19's defect)?"""
@@ -1152,7 +1512,16 @@ def perturb(rng, h):
         return h, "same"
     a = rng.choice(cands)
     ncol = len(a["cols"])
-    mode = rng.choice(["perm", "perm", "drop", "same"])
+    mode = rng.choice(["perm", "perm", "drop", "same", "dropreq", "loc"])
+    if mode == "loc":
+        return perturb_loc(rng, h)
+    if mode == "dropreq":
+        # forget the NAME of a required column (the data stays): the reader's index keeps its initial -1
+        req = [c for c in a["cols"] if c[1] in ("pre_cell_id", "post_cell_id", "target_cell_id")]
+        if not req:
+            return h, "same"
+        a["cols"].remove(rng.choice(req))
+        return h, mode
     if mode == "perm":
         pi = list(range(ncol))
         rng.shuffle(pi)                     # old column k moves to position pi[k]
@@ -1166,6 +1535,34 @@ def perturb(rng, h):
         a["cols"] = [[k - (1 if k > k0 else 0), nm] for (k, nm) in a["cols"] if k != k0]
         a["rows"] = [[v for (j, v) in enumerate(row) if j != k0] for row in a["rows"]]
     return h, mode
+
+
+def perturb_loc(rng, h):
+    """location tables as older writers produced them: 4 columns (id x y z), with or without column names, names
+    permuted, or a width the reader has no fallback for"""
+    locs = [a for l in h["net"]["leaves"] if l["name"].startswith("population_") for a in l["arrays"]]
+    if not locs:
+        return h, "same"
+    a = rng.choice(locs)
+    kind = rng.choice(["id4", "id4-noname", "noname3", "perm3", "id4-badid", "wide5"])
+    rows = a["rows"]
+    if kind in ("id4", "id4-noname", "id4-badid"):
+        ids = [k if kind != "id4-badid" else 7 + 2 * k for k in range(len(rows))]
+        a["rows"] = [[jr(F(ids[k]))] + row for k, row in enumerate(rows)]
+        a["cols"] = [] if kind == "id4-noname" else [[0, "id"], [1, "x"], [2, "y"], [3, "z"]]
+        if kind == "id4-badid" and rng.random() < 0.5:
+            a["cols"] = []
+    elif kind == "noname3":
+        a["cols"] = [c for c in a["cols"] if rng.random() < 0.4]
+    elif kind == "perm3":
+        pi = [0, 1, 2]
+        rng.shuffle(pi)
+        a["cols"] = [[pi[k], nm] for (k, nm) in a["cols"]]
+        a["rows"] = [[row[pi.index(j)] for j in range(3)] for row in rows]
+    else:
+        a["rows"] = [row + [jr(F(9)), jr(F(8))] for row in rows]
+        a["cols"] = [c for c in a["cols"] if rng.random() < 0.5]
+    return h, "loc:" + kind
 
 
 def is_nontrivial(spec):
@@ -1227,13 +1624,14 @@ def run_cases(ctx, specs):
             lines.append(json.dumps({"op": "enc", "cfg": cfg, "doc": core}))
             lines.append(json.dumps({"op": "sem", "cfg": cfg, "doc": core}))
             lines.append(json.dumps({"op": "rt", "cfg": cfg, "doc": core}))
+            lines.append(json.dumps({"op": "rtopt", "cfg": dict(cfg, popNames=True), "doc": core}))
         rc, out = fw.run_driver("C05", lines)
         if rc != 0 or len(out) != len(lines):
             ctx.disagree("driver", "driver failed rc=%s" % rc, "\n".join(out[-5:]), None)
             return
         dec_jobs = []
         for k, (spec, core, before, xml) in enumerate(prepared):
-            m_enc, m_sem, m_rt = (json.loads(out[3 * k + j]) for j in range(3))
+            m_enc, m_sem, m_rt, m_opt = (json.loads(out[4 * k + j]) for j in range(4))
             case = {"spec": spec}
             nt = is_nontrivial(spec)
             ctx.count("special:%s" % spec["special"] if spec.get("special") else "valid-stream")
@@ -1286,6 +1684,27 @@ def run_cases(ctx, specs):
                 ra, rm = canon_doc(after, True), (canon_doc(m_rt["ok"], True) if "ok" in m_rt else m_rt)
                 if ra != rm:
                     ctx.disagree("rt", case, ra, rm)
+            # the optimized loader on the same file: correspondence (`roundTripOpt`) and the full property
+            if not werr:
+                doc3, oerr = load_real(path, optimized=True)
+                after3 = None
+                if doc3 is not None:
+                    try:
+                        after3 = doc_to_json(doc3)          # the containers build their entries while they are read
+                    except Exception as e:  # noqa
+                        oerr = exc_name(e)
+                ctx.count("opt:" + (oerr or "ok"))
+                ctx.corr_evals += 1
+                if m_opt.get("err") == "unmodelled":
+                    ctx.count("opt:unmodelled")
+                elif oerr:
+                    if m_opt != {"err": oerr}:
+                        ctx.disagree("opt", case, {"err": oerr}, m_opt)
+                else:
+                    ra, rm = canon_doc(after3, True), (canon_doc(m_opt["ok"], True) if "ok" in m_opt else m_opt)
+                    if ra != rm:
+                        ctx.disagree("opt", case, ra, rm)
+                oracle_opt(ctx, spec, before, oerr, after3)
             try:
                 os.remove(path)
             except OSError:
@@ -1430,6 +1849,14 @@ def _corpus():
     out.append(_base("corpus:empty-proj", projs=[{"id": "pr1", "pre": "zpop", "post": "apop", "syn": "syn1", "conns": [], "connWDs": []}]))
     out.append(_base("corpus:usdelay", projs=[{"id": "pr1", "pre": "zpop", "post": "apop", "syn": "syn1", "conns": [],
                                                 "connWDs": [mk_conn(0, _zb(0), _as(0), weight=F(1), delay=[jr(F(250)), "us"])]}]))
+    # delays / weights / fractions that need the whole float32 mantissa (a "%g" in the loader would keep 6 digits)
+    out.append(_base("corpus:full-mantissa", projs=[{"id": "pr1", "pre": "zpop", "post": "apop", "syn": "syn1", "conns": [],
+        "connWDs": [mk_conn(0, _zb(0), _as(0), weight=F(0.123456789), delay=[jr(F(12.345678)), "ms"], preFrac=F(0.87654321)),
+                    mk_conn(1, _zb(1), _as(1), weight=F(1234.5678), delay=[jr(F(10000.25)), "ms"]),
+                    mk_conn(2, _zb(2), _as(2), weight=F(1), delay=[jr(F(3217, 1 << 20)), "s"])]}]))
+    d = _base("corpus:no-network")
+    d["nets"] = []
+    out.append(d)
     # chemical projection without segment information but ids unrelated to the row index (ids are not stored)
     out.append(_base("corpus:chem-ids", projs=[{"id": "pr1", "pre": "apop", "post": "zpop", "syn": "syn2", "connWDs": [],
                                                  "conns": [mk_conn(40, _as(2), _zb(3)), mk_conn(7, _as(0), _zb(1)), mk_conn(8, _as(1), _zb(1))]}]))
@@ -1439,12 +1866,46 @@ def _corpus():
 CORPUS = _corpus()
 
 
+def run_fresh(ctx):
+    """a new interpreter that imports only `neuroml` and `neuroml.writers` (not the loaders) writes a projection"""
+    import subprocess
+    import sys
+    d = tempfile.mkdtemp(prefix="verif_c05n_")
+    try:
+        code = ("import warnings; warnings.simplefilter('ignore')\n"
+                "import neuroml, neuroml.writers as w\n"
+                "d = neuroml.NeuroMLDocument(id='d'); n = neuroml.Network(id='n'); d.networks.append(n)\n"
+                "n.populations.append(neuroml.Population(id='p', component='c', size=2))\n"
+                "pr = neuroml.Projection(id='pr', presynaptic_population='p', postsynaptic_population='p', synapse='s')\n"
+                "n.projections.append(pr)\n"
+                "pr.connections.append(neuroml.Connection(id=0, pre_cell_id='../p[0]', post_cell_id='../p[1]'))\n"
+                "try:\n    w.NeuroMLHdf5Writer.write(d, %r)\n    print('RESULT ok')\n"
+                "except Exception as e:\n    print('RESULT ' + type(e).__name__)\n" % os.path.join(d, "x.nml.h5"))
+        env = dict(os.environ, PYTHONPATH=fw.REPO, PYTHONDONTWRITEBYTECODE="1")
+        pr = subprocess.run([sys.executable, "-c", code], env=env, stdout=subprocess.PIPE, stderr=subprocess.STDOUT,
+                            text=True, timeout=300)
+        res = [l for l in pr.stdout.split("\n") if l.startswith("RESULT ")]
+        res = res[-1][len("RESULT "):] if res else "crash"
+        ctx.count("fresh-interpreter:" + res)
+        ctx.seen(["fresh-interpreter"], nontrivial=False)
+        if res != "ok":
+            ctx.fail("C05:supported-input-refused:write:%s:fresh-interpreter" % res,
+                     "in an interpreter that imported only neuroml and neuroml.writers the HDF5 writer refuses a document "
+                     "with one chemical projection (%s)" % res, {"fresh": True, "code": code})
+    finally:
+        shutil.rmtree(d, ignore_errors=True)
+
+
 def run(ctx):
-    n = ctx.n(300, 2400) * ctx.search_mult
+    run_fresh(ctx)
+    run_fate(ctx)
+    run_f32(ctx)
+    n = ctx.n(300, 2400) * min(ctx.search_mult, 3)      # a broken obligation triples the search (failing inputs are dense)
     specs = [json.loads(json.dumps(c)) for c in CORPUS]
     big = ctx.tier == "thorough"
     for i in range(n):
-        specs.append(gen_special(ctx.rng) if i % 4 == 3 else gen_doc(ctx.rng, big=big))
+        specs.append(gen_special(ctx.rng) if i % 4 == 3 else
+                     (gen_optdoc(ctx.rng, big=big) if i % 4 == 1 else gen_doc(ctx.rng, big=big)))
     # batches keep the driver input and the temporary directory small
     for i in range(0, len(specs), 150):
         run_cases(ctx, specs[i:i + 150])
@@ -1453,9 +1914,18 @@ def run(ctx):
 def replay(ctx, payload):
     case = payload.get("case", payload)
     spec = case["spec"] if "spec" in case else case
+    if not isinstance(case, dict):
+        case = {}
     import contextlib
     with contextlib.redirect_stdout(io.StringIO()), contextlib.redirect_stderr(io.StringIO()):   # the library prints
-        run_cases(ctx, [spec])
+        if case.get("fresh"):
+            run_fresh(ctx)
+        elif "fate" in case:
+            run_fate(ctx)
+            ctx.failures = [f for f in ctx.failures if f["case"].get("fate") == case["fate"]]
+            ctx.corr_disagreements = [d for d in ctx.corr_disagreements if d["case"].get("fate") == case["fate"]]
+        else:
+            run_cases(ctx, [spec])
     known = fw.known_findings("C05")
     viol = [f for f in ctx.failures if f["key"] not in known]
     return {"fails": bool(viol or ctx.corr_disagreements), "failures": viol,
